@@ -72,3 +72,34 @@ var nilTable = map[string]tabEntry{
 	"introspection.parseTypeRef/pointer field introspection.IntrospectionTypeRef.OfType of a JSON-decoded struct": {3,
 		"start-up only; a spec-compliant introspection answer (precondition of C15) always carries ofType for NON_NULL and LIST"},
 }
+
+// errTable: deliberate drops / fallbacks, confirmed by reading.
+var errTable = map[string]tabEntry{
+	"format.(*Formatter).write/drop io.Writer.Write": {1,
+		"the writer is always the bytes.Buffer installed by BufferedFormatter.FormatSelectionSet; bytes.Buffer.Write never returns an error"},
+	"introspection.(*IntrospectionResolver).resolveType/test (*gqlparser/ast.Value).Value": {2,
+		"includeDeprecated: when the variable cannot be resolved the spec default (false) is used; validation has already type-checked the argument"},
+	"introspection.parseInputField/test encoding/json.Marshal": {2,
+		"the marshalled value was itself produced by json.Unmarshal (interface{} tree of maps, slices, strings, numbers, bools): Marshal cannot fail on it"},
+	"pebbles.(*Gateway).subscriptionHandler/drop github.com/buildbuildio/pebbles.sendHeartbeat": {1,
+		"heartbeat goroutine: a failed keep-alive write means the client is gone; the read loop notices the same broken connection and tears down"},
+	"pebbles.(*Gateway).subscriptionHandler$2/drop net.Conn.Close": {1, "closing an already failing connection: nothing to report to"},
+	"queryer.(*MultiOpQueryer).Subscribe$1/drop net.Conn.Close":     {1, "closing the upstream connection on teardown: nothing to report to"},
+	"queryer.(*MultiOpQueryer).Subscribe$2$1/drop net.Conn.Close":   {1, "closing the upstream connection on teardown: nothing to report to"},
+	"queryer.(*MultiOpQueryer).sendRequest/drop io.ReadCloser.Close": {1, "body already read completely; Close error carries no information for the caller"},
+	"pebbles.(Results).Emit/drop (*encoding/json.Encoder).Encode":    {2, "the status line is already written; an encode/write failure means the client went away and cannot be told"},
+	"pebbles.emitError/drop (*encoding/json.Encoder).Encode":         {1, "the status line is already written; an encode/write failure means the client went away and cannot be told"},
+	"planner.extractSelectionSet/test (*planner.PlanningContext).GetURL": {1,
+		"deliberate fallback: fields without a route (id, fields of interfaces) stay in the current step's selection (comment in the source)"},
+	"planner.routeSelectionSet/test planner.filterSelectionSetByLoc": {1,
+		"second pass over the same selection with the internal pseudo-service: the same call already succeeded for every real location in the loop above, so it cannot fail here; `err == nil &&` only guards the use"},
+}
+
+// terminateTable: connection-owning functions without an error result whose reaction to a
+// failure is to stop serving that connection (their deferred teardown is checked by R5).
+var terminateTable = map[string]string{
+	"pebbles.(*Gateway).subscriptionHandler":   "websocket handler: any protocol/IO/validation failure ends the connection; teardown is deferred (R5 iv)",
+	"pebbles.(*Gateway).subscriptionHandler$2": "deferred teardown itself: a failed close-frame write means the peer is gone",
+	"pebbles.(*subscriptionEntry).Listen":      "per-subscription writer: a failed marshal/write ends the subscription; teardown is deferred (R5 v)",
+	"queryer.(*MultiOpQueryer).Subscribe$2":    "upstream reader: a read/decode failure ends the upstream subscription; the deferred function signals completion with resCh <- nil",
+}
